@@ -1,12 +1,13 @@
 (* C01/Model.v — executable model of the event bus of mpf/core/events.py:
      add_handler (append + stable sort by priority, descending), remove_handler_by_key,
+     remove_handler(method), replace_handler,
      _post (fast path, deferred posting), _run_handlers (snapshot, kwargs merge, condition,
      boolean abort, relay update), _process_event (callback queue, ev_result),
      process_event_queue (the two nested while loops with the stack of deques, callbacks LIFO, one
      at a time, only when no event is pending).
    Handlers are data: a script maps a procedure id to a list of programs; the k-th invocation of a
    procedure runs its k-th program (later invocations do nothing).  A program is a list of actions
-   (post / add handler / remove by key) and a return value.
+   (post / add handler / replace handler / remove by key / remove by method) and a return value.
    Besides the literal transcription ([inner], [outer]) the file contains the short recursive
    specification ([dfs], [drain]) the transcription is proved to refine (Lemmas.v).
    Definitions only; proofs are in Lemmas.v. *)
